@@ -131,7 +131,15 @@ func runSolver(ctx context.Context, sp solverSpec, script string, timeoutS int) 
 	_ = cmd.Run()
 	ms := time.Since(t0).Milliseconds()
 	s := out.String()
-	first := strings.TrimSpace(strings.SplitN(s, "\n", 2)[0])
+	first := ""
+	for _, ln := range strings.Split(s, "\n") { // skip warnings (e.g. about a rejected pattern)
+		ln = strings.TrimSpace(ln)
+		if ln == "" || strings.HasPrefix(ln, "WARNING") {
+			continue
+		}
+		first = ln
+		break
+	}
 	st := "error"
 	switch {
 	case first == "unsat" || first == "sat" || first == "unknown":
